@@ -8,7 +8,7 @@ run_one() {
   W=/tmp/mw/$id; V=/tmp/mv/$id
   rm -rf $W $V; mkdir -p /tmp/mw /tmp/mv
   git -C /repo worktree add -q --detach $W HEAD 2>/dev/null || { echo "$id worktree failed"; return; }
-  git -C $W apply /verif/seeded/$id/patch.diff || { echo "$id: PATCH DOES NOT APPLY"; git -C /repo worktree remove --force $W; return; }
+  cp /repo/Cargo.lock $W/ 2>/dev/null; git -C $W apply /verif/seeded/$id/patch.diff || { echo "$id: PATCH DOES NOT APPLY"; git -C /repo worktree remove --force $W; return; }
   mkdir -p $V; rsync -a --exclude build --exclude .git --exclude seeded /verif/ $V/
   mkdir -p $V/build; ln -s /verif/build/depcrate $V/build/depcrate; cp -r /verif/build/cache $V/build/cache 2>/dev/null
   for p in ${props//,/ }; do
